@@ -61,7 +61,7 @@ func runInProcess(cases []hs.Case, results []*hs.Result, workers int) {
 func hsWorker(args []string) int {
 	log.SetOutput(io.Discard)
 	debug.SetGCPercent(-1)
-	debug.SetMemoryLimit(2 << 30)
+	debug.SetMemoryLimit(640 << 20) // (times 32 workers: the collector runs when a worker gets there)
 	in := bufio.NewScanner(os.Stdin)
 	in.Buffer(make([]byte, 1<<20), 1<<26)
 	out := bufio.NewWriter(os.Stdout)
@@ -264,7 +264,7 @@ func hsServer(args []string) int {
 	// a connection the server forgot to close must stay open for the length of
 	// the case: keep the collector from finalising it behind our back
 	debug.SetGCPercent(-1)
-	debug.SetMemoryLimit(6 << 30)
+	debug.SetMemoryLimit(3 << 30)
 	f, err := os.Open(*casesPath)
 	if err != nil {
 		fmt.Fprintln(os.Stderr, err)
